@@ -28,6 +28,7 @@ EXPLANATION = (
     "removal is restricted to outcomes actually present; (D7) none of these functions writes through its arguments "
     "(effect analysis on every parameter, including plain dicts and lists). "
     "(D3i) the number of copies is computed in integer arithmetic (no rounding of a floating-point quotient); (D6c) shot Counters are only ever merged by addition (| and & take max / min)."
+    " Round 4: the random draw pairs the dictionary's keys() with its values(), neither side re-ordered."
 )
 RULE_TEXT = "instances = guards, chunking/zip/aggregate sites, 960 grid points of the expansion formula, recombination comprehensions, rounding/top-up/removal sites, (function, parameter) purity pairs"
 ASSUMPTIONS = [
